@@ -6,6 +6,7 @@ import (
 	"go/token"
 	"go/types"
 	"regexp"
+	"sort"
 	"strings"
 
 	"fv/internal/core"
@@ -873,4 +874,82 @@ func ssaFuncsOfPkg(fn *ssa.Function) []*ssa.Function {
 		}
 	}
 	return out
+}
+
+// checkCallTreeKinds (sim.calltree): "never run forever" rests, for non-recursive programs, on the call-tree limit:
+// CheckFastlyCallTreeLimit rejects a program whose fully expanded subroutine calls exceed MaxSubroutineCallTree before
+// anything runs (each call may double the work of the level below: depth d costs 2^d). The limit is computed by a walk
+// over the syntax tree; it bounds the work only if it counts every node kind through which the simulator enters a user
+// subroutine. Decided as agreement of two sets extracted on every run: the node kinds of the Process* functions that
+// (transitively, within package interpreter, not through another Process*Statement/Expression dispatcher) call
+// ProcessSubroutine / ProcessFunctionSubroutine, and the node kinds the limit's walkers collect.
+func checkCallTreeKinds(c *core.Ctx) {
+	prog := c.Prog
+	limit := prog.SSAFunc("interpreter/limitations", "CheckFastlyCallTreeLimit")
+	ps := prog.SSAFunc("interpreter", "Interpreter.ProcessSubroutine")
+	pfs := prog.SSAFunc("interpreter", "Interpreter.ProcessFunctionSubroutine")
+	if limit == nil || ps == nil || pfs == nil {
+		c.MissingAnchor("sim.calltree", "limitations.CheckFastlyCallTreeLimit / Interpreter.ProcessSubroutine / ProcessFunctionSubroutine")
+		return
+	}
+	// kinds the limit collects: element types of the slices its walkers append to / type assertions that lead to an append
+	counted := map[string]bool{}
+	for _, fn := range staticClosure([]*ssa.Function{limit}, map[string]bool{limit.Pkg.Pkg.Path(): true}) {
+		for _, b := range fn.Blocks {
+			for _, in := range b.Instrs {
+				call, ok := in.(*ssa.Call)
+				if !ok {
+					continue
+				}
+				if bi, ok := call.Common().Value.(*ssa.Builtin); ok && bi.Name() == "append" {
+					if sl, ok := call.Type().Underlying().(*types.Slice); ok {
+						if k := astNodeName(sl.Elem()); k != "" {
+							counted[k] = true
+						}
+					}
+				}
+			}
+		}
+	}
+	// entry kinds: functions of package interpreter with one ast node parameter that call ProcessSubroutine /
+	// ProcessFunctionSubroutine directly
+	entries := map[string]*ssa.Function{}
+	for _, fn := range prog.ModuleFuncs("interpreter") {
+		if fn.Pkg == nil || fn.Pkg.Pkg.Path() != interpPkg || fn == ps || fn == pfs {
+			continue
+		}
+		calls := false
+		for _, b := range fn.Blocks {
+			for _, in := range b.Instrs {
+				if cal := core.StaticCallee(in); cal == ps || cal == pfs {
+					calls = true
+				}
+			}
+		}
+		if !calls {
+			continue
+		}
+		for _, p := range fn.Params {
+			if k := astNodeName(p.Type()); k != "" && k != "SubroutineDeclaration" {
+				entries[k] = fn
+			}
+		}
+	}
+	if len(entries) == 0 || len(counted) == 0 {
+		c.MissingAnchor("sim.calltree", fmt.Sprintf("entry kinds (%d) / counted kinds (%d)", len(entries), len(counted)))
+		return
+	}
+	var cs []string
+	for k := range counted {
+		cs = append(cs, k)
+	}
+	sort.Strings(cs)
+	for k, fn := range entries {
+		key := "enters a subroutine|" + k
+		if counted[k] {
+			c.Discharge("sim.calltree", key, fn.Pos(), "counted by the call-tree limit")
+		} else {
+			c.Report("sim.calltree", key, fn.Pos(), fmt.Sprintf("%s enters a user subroutine for a %s, but the call-tree limit only counts %s: calls made through that kind of node are not bounded before the program runs, so a chain of subroutines each calling the next one twice does 2^depth calls (depth 40: months) without hitting either the limit or the depth guard", core.FnName(fn), k, strings.Join(cs, ", ")))
+		}
+	}
 }
